@@ -7,6 +7,7 @@ artefact: signature(project(build(c))) == signature(c), else MachineryError.
 """
 from __future__ import annotations
 
+import hashlib
 import io
 import lzma
 import random
@@ -387,15 +388,102 @@ def plain_pdf(seed=0):
     return docrun.render(docrun.rich_doc("pdf", seed), "pdf")
 
 
+def _pad_to(n, res):
+    """smallest m >= n with m % 16 == res"""
+    return n + ((res - n) % 16)
+
+
+def layout_pdf(c, seed=0):
+    """Two-page PDF whose encrypted plaintexts have chosen lengths modulo the AES block size:
+    every page content stream (raw, or Flate-compressed when c["flate"]) has len % 16 == c["slen"]; the strings
+    /Info /Title, /Info /Author and a string in every page dictionary have len % 16 == c["strlen"].
+    Also carries one small Flate image (arbitrary length) so that image extraction is compared too."""
+    from .docmodel import word
+    rng = random.Random(seed * 977 + 13)
+    slen, strlen = c["slen"], c["strlen"]
+
+    def string_of(prefix):
+        n = _pad_to(len(prefix) + 1, strlen)
+        if n < 15:
+            n += 16
+        return (prefix + " " + "x" * n)[:n].replace("(", "[").replace(")", "]")
+
+    def content_stream(tokens_per_line):
+        body = b"BT /F1 12 Tf 14 TL 72 760 Td\n" + b"".join(
+            b"(" + " ".join(word(i) for i in ln).encode() + b") Tj T*\n" for ln in tokens_per_line) + b"ET\n"
+        if not c["flate"]:
+            n = _pad_to(len(body), slen)
+            return body + b" " * (n - len(body)), b""
+        for k in range(0, 400):                      # an incompressible comment moves the compressed length
+            cand = body + (b"%" + bytes(rng.choice(b"0123456789abcdefghijklmnopqrstuvwxyz") for _ in range(k)) + b"\n" if k else b"")
+            comp = zlib.compress(cand, 6)
+            if len(comp) % 16 == slen:
+                return comp, b" /Filter /FlateDecode"
+        raise ValueError("c08 layout_pdf: no Flate length with residue %d" % slen)
+
+    pages_tokens = [[[1, 2], [3]], [[4]]]
+    objs = []
+
+    def add(b):
+        objs.append(b)
+        return len(objs)
+    font = add(b"<< /Type /Font /Subtype /Type1 /BaseFont /Helvetica /Encoding /WinAnsiEncoding >>")
+    pages_id = add(b"")
+    img = zlib.compress(bytes(rng.getrandbits(8) for _ in range(6 * 5 * 3)))
+    img_id = add(b"<< /Type /XObject /Subtype /Image /Width 6 /Height 5 /ColorSpace /DeviceRGB /BitsPerComponent 8 "
+                 b"/Filter /FlateDecode /Length %d >>\nstream\n" % len(img) + img + b"\nendstream")
+    kids = []
+    for n, toks in enumerate(pages_tokens, start=1):
+        data, flt = content_stream(toks)
+        cid = add(b"<< /Length %d%s >>\nstream\n" % (len(data), flt) + data + b"\nendstream")
+        note = string_of("C08 page %d note" % n).encode()
+        kids.append(add(b"<< /Type /Page /Parent %d 0 R /MediaBox [0 0 612 792] /Contents %d 0 R /C08Note (%s) "
+                        b"/Resources << /Font << /F1 %d 0 R >> /XObject << /Im1 %d 0 R >> >> >>"
+                        % (pages_id, cid, note, font, img_id)))
+    objs[pages_id - 1] = b"<< /Type /Pages /Count %d /Kids [%s] >>" % (len(kids), b" ".join(b"%d 0 R" % k for k in kids))
+    info = add(b"<< /Title (%s) /Author (%s) >>" % (string_of("C08 title").encode(), string_of("Au Thor").encode()))
+    cat = add(b"<< /Type /Catalog /Pages %d 0 R >>" % pages_id)
+    out = bytearray(b"%PDF-1.6\n%\xe2\xe3\xcf\xd3\n")
+    offs = []
+    for n, body in enumerate(objs, start=1):
+        offs.append(len(out))
+        out += b"%d 0 obj\n" % n + body + b"\nendobj\n"
+    xref = len(out)
+    out += b"xref\n0 %d\n0000000000 65535 f \n" % (len(objs) + 1) + b"".join(b"%010d 00000 n \n" % o for o in offs)
+    did = hashlib.md5(b"c08-%d" % seed).hexdigest().encode()
+    out += (b"trailer\n<< /Size %d /Root %d 0 R /Info %d 0 R /ID [<%s> <%s>] >>\nstartxref\n%d\n%%%%EOF\n"
+            % (len(objs) + 1, cat, info, did, did, xref))
+    return bytes(out)
+
+
+def plain_pdf_for(c, seed=0):
+    """The unencrypted original of an abstract PDF container (layout fields: flate, slen, strlen)."""
+    return layout_pdf(c, seed)
+
+
+def _check_layout(writer, c):
+    """Harness self-check on the writer's object graph (what pypdf is about to encrypt): plaintext lengths."""
+    for pg in writer.pages:
+        st = pg.raw_get("/Contents").get_object()
+        if len(st._data) % 16 != c["slen"]:
+            raise ValueError(f"c08 pdf builder: content stream plaintext {len(st._data)} bytes, wanted residue {c['slen']}")
+        if ("/Filter" in st) != bool(c["flate"]):
+            raise ValueError("c08 pdf builder: /Filter of the content stream lost or invented")
+        note = pg["/C08Note"]
+        if len(note.get_original_bytes()) % 16 != c["strlen"]:
+            raise ValueError(f"c08 pdf builder: page string {len(note.get_original_bytes())} bytes, wanted residue {c['strlen']}")
+    info = writer._info.get_object() if getattr(writer, "_info", None) is not None else None
+    if info is None or "/Title" not in info or len(info["/Title"].get_original_bytes()) % 16 != c["strlen"]:
+        raise ValueError("c08 pdf builder: /Info /Title not carried over with the wanted length")
+
+
 def build_pdf(c, rng, plain):
     """Needs patch_pypdf_fallback_aes() for the AES algorithms: call only in a builder process."""
     if c["alg"] == "none":
         return plain
     from pypdf import PdfReader, PdfWriter
-    r = PdfReader(io.BytesIO(plain))
-    w = PdfWriter()
-    for pg in r.pages:
-        w.add_page(pg)
+    w = PdfWriter(clone_from=PdfReader(io.BytesIO(plain)))      # whole document: pages, /Info, custom page keys
+    _check_layout(w, c)
     user = "" if c["userEmpty"] else rng.choice(["u", "pw123", "pässwörd", "x" * 40])
     if c["owner"] == "same":          # equal to the user password: given explicitly, or left to the writer (None)
         owner = rng.choice([user, None])
@@ -412,6 +500,10 @@ def build_pdf(c, rng, plain):
     return data
 
 
+# plaintext lengths are not visible in an encrypted file; a fixture gets the neutral layout (no part in Class)
+_FIXTURE_LAYOUT = {"flate": False, "slen": 1, "strlen": 1}
+
+
 def project_pdf(data, user_empty=None):
     from pypdf import PdfReader
     import logging
@@ -422,7 +514,7 @@ def project_pdf(data, user_empty=None):
     except Exception:
         return {"kind": "plain"}
     if e is None:
-        return {"kind": "pdf", "alg": "none", "userEmpty": True, "owner": "same"}
+        return {"kind": "pdf", "alg": "none", "userEmpty": True, "owner": "same", **_FIXTURE_LAYOUT}
     e = e.get_object()
     v, rev, ln = int(e.get("/V", 0)), int(e.get("/R", 0)), int(e.get("/Length", 40))
     if v in (1, 2) and rev in (2, 3):
@@ -436,7 +528,7 @@ def project_pdf(data, user_empty=None):
     else:
         alg = "RC4-40"
     # the owner password is not visible in the bytes either (it does not enter the classification)
-    return {"kind": "pdf", "alg": alg, "userEmpty": bool(user_empty), "owner": "distinct"}
+    return {"kind": "pdf", "alg": alg, "userEmpty": bool(user_empty), "owner": "distinct", **_FIXTURE_LAYOUT}
 
 
 # --------------------------------------------------------------------------- zip
